@@ -92,6 +92,13 @@ _DECOYS = [
     ('wrapper', {}, None, [('roDelete', {}, None, [('roID', {}, 'X', [], None)], None),
                            ('mosromgrmeta', {}, None, [], None), ('roCreate', {}, None, [], None)], None),
 ]
+_DECOYS += [
+    ('crossRef', {}, None, [('storyID', {}, 'N0', [], None), ('storyID', {}, 'N1', [], None),
+                            ('storyID', {}, 'G0', [], None), ('itemID', {}, 'J0', [], None),
+                            ('itemID', {}, 'H0', [], None)], None),
+    ('list', {}, None, [('item', {}, 'one', [], None), ('item', {}, 'two', [], None),
+                        ('story', {}, None, [('storyID', {}, 'N2', [], None)], None)], None),
+]
 for _d in (1, 2):
     GENERIC_SPECS[_d] = GENERIC_SPECS[_d] + _DECOYS
 
@@ -212,6 +219,9 @@ def _shell_variants():
             extras=[_R.choice(GENERIC_SPECS[1])] if _R.randrange(3) == 0 else [],
             id_pos=_R.choice([0, 0, 0, 1, 2, 3]), attrib=_R.choice([None, None, {'a': 'v<'}]),
             tails=_R.choice([None, None, ' ', '\n  ', '\t']),
+            id_late=_R.choice([None] * 8 + ['after-first', 'last']),
+            p_tail=_R.choice([None] * 6 + ['stray text after p', ' (tail) ']),
+            second_md=_R.choice([None] * 5 + ['no-timing', 'no-payload']),
             odd=_R.choice([None, None, None] + GENERIC_SPECS[1][:6])))
     return out
 
@@ -239,12 +249,38 @@ def story(draw, sid, iids, rich=True, timing_mode='any', for_send=False):
     s = B.mk_story(sid, slug=v.get('slug'), num=v.get('num'), timing=tm, body=body,
                    extras_before=[B.from_spec(x) for x in v.get('extras', [])],
                    id_pos=v.get('id_pos', 0))
+    if v.get('second_md') and s.find('mosExternalMetadata') is not None:
+        # a second metadata block, without timing, after the one that holds the timing
+        first = s.find('mosExternalMetadata')
+        blk = E('mosExternalMetadata', T('mosScope', 'STORY'), T('mosSchema', 'http://other/schema'),
+                E('mosPayload', T('Approved', '1'), T('Owner', 'x')) if v['second_md'] == 'no-timing' else None)
+        s.insert(list(s).index(first) + 1, blk)
+    if v.get('id_late') and len(s) > 1:
+        # the storyID after the first body child, or last: an item / paragraph is then child 0
+        idtag = s.find('storyID')
+        if idtag is not None:
+            s.remove(idtag)
+            head = [c for c in s if c.tag not in ('p', 'item', 'storyItem')]
+            for h in head:
+                s.remove(h)
+            kids = list(s)
+            for k in kids:
+                s.remove(k)
+            pos = 1 if v['id_late'] == 'after-first' else len(kids)
+            for k in kids[:pos] + [idtag] + head + kids[pos:]:
+                s.append(k)
     if v.get('attrib'):
         s.attrib.update(v['attrib'])
     if v.get('tails') is not None:
         for i, c in enumerate(s):
             if i % 2 == 0:
                 c.tail = v['tails']
+    if v.get('p_tail'):
+        # mixed content: text directly inside the story, after a paragraph
+        for c in s:
+            if c.tag == 'p':
+                c.tail = v['p_tail']
+                break
     return s, body
 
 
@@ -287,7 +323,8 @@ def ro_metadata(draw, n_md):
     for i in range(n_md):
         if draw(st.booleans()):
             md = E('mosExternalMetadata', T('mosScope', 'PLAYLIST'),
-                   T('mosSchema', SCHEMAS[(i + off) % len(SCHEMAS)]),
+                   # at most one block per document has no mosSchema at all (i == 1, sometimes)
+                   (T('mosSchema', SCHEMAS[(i + off) % len(SCHEMAS)]) if not (i == 1 and off % 3 == 0) else None),
                    E('mosPayload', T('k', draw(st.sampled_from(TEXT_POOL))), draw(generic(depth=1))))
             out.append(md)
         else:
@@ -299,7 +336,7 @@ def ro_metadata(draw, n_md):
 
 @st.composite
 def running_order(draw, min_stories=0, max_stories=6, max_items=4, rich=True,
-                  timing_mode='any', simple_ids=False, ro_id=None):
+                  timing_mode='any', simple_ids=False, ro_id=None, allow_no_slug=False):
     """-> dict(ro_xml, ro_id, mid)"""
     pool_s = SIMPLE_S if simple_ids else STORY_POOL
     pool_i = SIMPLE_I if simple_ids else ITEM_POOL
@@ -324,8 +361,10 @@ def running_order(draw, min_stories=0, max_stories=6, max_items=4, rich=True,
         children.insert(draw(st.integers(0, len(children))), m)
     ro_id = ro_id or draw(st.sampled_from(['RO1', 'RO ID', 'ro;1&2']))
     ed = draw(st.sampled_from([None, '', '2020-01-01T12:30:00', '2021-03-04T05:06:07.5']))
-    rc = B.ro_create(ro_id, children, slug=draw(st.sampled_from(['RO SLUG', 'slug & <co>'])),
-                     ed_start=ed)
+    slug = draw(st.sampled_from(['RO SLUG', 'slug & <co>']))
+    if allow_no_slug and draw(st.integers(0, 7)) == 0:
+        slug = None                      # merges do not need the slug
+    rc = B.ro_create(ro_id, children, slug=slug, ed_start=ed)
     mid = draw(st.integers(1, 5000))
     order = None
     extras = []
@@ -333,6 +372,9 @@ def running_order(draw, min_stories=0, max_stories=6, max_items=4, rich=True,
         order = draw(permutation(['mosID', 'ncsID', 'messageID', 'body']))
         extras = draw(st.lists(generic(depth=0), max_size=1))
     root = B.envelope(rc, mid, ncs_id=draw(st.none() | st.just('NCS')), order=order, extras=extras)
+    if rich and draw(st.integers(0, 4)) == 0:
+        root.attrib.update({'version': '2.8.5', 'changeDate': draw(st.sampled_from(TEXT_POOL)) or 'x'})
+        root.find('messageID').text = draw(st.sampled_from(['{}', '00{}', ' {} ', '+{}'])).format(mid)
     pretty = draw(st.booleans())
     return {'ro_xml': B.tostring(root, pretty=pretty), 'ro_id': ro_id, 'mid': mid}
 
@@ -614,12 +656,12 @@ META_KINDS = ['roMetadataReplace', 'roReplace', 'roReadyToAir', 'roDelete']
 @st.composite
 def step_case(draw, kinds=B.ALL_KINDS, faults='some', rich=True, min_stories=0,
               max_stories=6, max_items=4, degenerate=False, timing_mode='any',
-              simple_ids=False):
+              simple_ids=False, allow_no_slug=False):
     from xml.etree import ElementTree as ET
     from . import xmlcmp
     ro = draw(running_order(min_stories=min_stories, max_stories=max_stories,
                             max_items=max_items, rich=rich, timing_mode=timing_mode,
-                            simple_ids=simple_ids))
+                            simple_ids=simple_ids, allow_no_slug=allow_no_slug))
     state = xmlcmp.state_of(ET.fromstring(ro['ro_xml']))
     kind, msg_xml = draw(message(state, ro['ro_id'], kinds=kinds, faults=faults, rich=rich,
                                  degenerate=degenerate, timing_mode=timing_mode))
